@@ -377,7 +377,13 @@ macro_rules! prims {
             id: u8,
         ) -> impl Parser<'a, I<'a>, Tr, X<'a>> + Clone {
             a.validate(move |x: Tr, e, emitter| {
-                emitter.emit(<$E as MkErr>::emitted(id, e.span()));
+                // `emit_weight(id)` copies: the surviving subset of emitters is then visible in the length
+                // of the reported error list (cheap for the solver), see refsem::emit_weight
+                let mut k = 0;
+                while k < $crate::refsem::emit_weight(id) {
+                    emitter.emit(<$E as MkErr>::emitted(id, e.span()));
+                    k += 1;
+                }
                 x
             })
         }
@@ -400,6 +406,56 @@ macro_rules! prims {
             until: impl Parser<'a, I<'a>, Tr, X<'a>> + Clone,
         ) -> impl Parser<'a, I<'a>, Tr, X<'a>> + Clone {
             a.recover_with(skip_then_retry_until(skip.ignored(), until.ignored()))
+        }
+        // ---- value-building formulations of the output-eliding combinators (C04 pairs) -----------
+        pub fn then_snd<'a>(
+            a: impl Parser<'a, I<'a>, Tr, X<'a>> + Clone,
+            b: impl Parser<'a, I<'a>, Tr, X<'a>> + Clone,
+        ) -> impl Parser<'a, I<'a>, Tr, X<'a>> + Clone {
+            a.then(b).map(|(_, y): (Tr, Tr)| y)
+        }
+        pub fn then_fst<'a>(
+            a: impl Parser<'a, I<'a>, Tr, X<'a>> + Clone,
+            b: impl Parser<'a, I<'a>, Tr, X<'a>> + Clone,
+        ) -> impl Parser<'a, I<'a>, Tr, X<'a>> + Clone {
+            a.then(b).map(|(x, _): (Tr, Tr)| x)
+        }
+        pub fn map_unit<'a>(
+            a: impl Parser<'a, I<'a>, Tr, X<'a>> + Clone,
+        ) -> impl Parser<'a, I<'a>, Tr, X<'a>> + Clone {
+            a.map(|_: Tr| Tr::unit())
+        }
+        pub fn map_to<'a>(
+            a: impl Parser<'a, I<'a>, Tr, X<'a>> + Clone,
+            c: u8,
+        ) -> impl Parser<'a, I<'a>, Tr, X<'a>> + Clone {
+            a.map(move |_: Tr| Tr::tok(c))
+        }
+        pub fn to_span_<'a>(
+            a: impl Parser<'a, I<'a>, Tr, X<'a>> + Clone,
+        ) -> impl Parser<'a, I<'a>, Tr, X<'a>> + Clone {
+            a.to_span().map(|s: SimpleSpan| Tr::unit().span(s.start, s.end))
+        }
+        pub fn sp_only<'a>(
+            a: impl Parser<'a, I<'a>, Tr, X<'a>> + Clone,
+        ) -> impl Parser<'a, I<'a>, Tr, X<'a>> + Clone {
+            a.map_with(|_: Tr, e| {
+                let s: SimpleSpan = e.span();
+                Tr::unit().span(s.start, s.end)
+            })
+        }
+        pub fn to_slice_len<'a>(
+            a: impl Parser<'a, I<'a>, Tr, X<'a>> + Clone,
+        ) -> impl Parser<'a, I<'a>, Tr, X<'a>> + Clone {
+            a.to_slice().map(|s: &[u8]| Tr::unit().push(0xC0 | (s.len() as u8 & 0x0f)))
+        }
+        pub fn sl_len<'a>(
+            a: impl Parser<'a, I<'a>, Tr, X<'a>> + Clone,
+        ) -> impl Parser<'a, I<'a>, Tr, X<'a>> + Clone {
+            a.map_with(|_: Tr, e| {
+                let s: SimpleSpan = e.span();
+                Tr::unit().push(0xC0 | ((s.end - s.start) as u8 & 0x0f))
+            })
         }
         pub fn bx<'a>(
             a: impl Parser<'a, I<'a>, Tr, X<'a>> + Clone + 'a,
